@@ -4216,7 +4216,10 @@ fn get_arg_type(s: &str, quoted: bool) -> ArgType {
         }
         prevc = Some(c)
     }
-    if numeric && foundperiod && s.parse::<f64>().is_ok() {
+    if quoted {
+        //a quoted literal is a string, whatever it looks like ("true", "null", "any", "2024-01-01T00:00:00Z", "42")
+        ArgType::String
+    } else if numeric && foundperiod && s.parse::<f64>().is_ok() {
         ArgType::Float
     } else if numeric && !foundperiod && s.parse::<isize>().is_ok() {
         //(a lone "-" or an integer that does not fit is not an integer literal)
